@@ -197,11 +197,41 @@ def check_eq_shape(ctx, pk, eq):
                 ctx.violation(rule, eq, label + ' -> %s' % canon(p.ret())[:120], 'the result does not depend on %s' % ('the fields' if kind != 'ALL' else 'the class of the other object'), eq.node.lineno)
             elif kind == 'F':
                 ctx.violation(rule, eq, label + ' -> %s' % canon(p.ret())[:120], 'packets of the same class always compare unequal on this path', eq.node.lineno)
+            elif _walks_slots(repo, pk, p.ret()):
+                ctx.violation(rule, eq, label + ' -> %s' % canon(p.ret())[:120], 'the comparison walks __slots__, which the class builder fills with more than the field names (%s): the scratch slots of repeated / optional / bit fields and the descriptor flags depend on what was done with a packet, so two packets with the same field values can compare unequal' % _walks_slots(repo, pk, p.ret()), eq.node.lineno, witness=True)
             else:
                 ctx.undecided(rule, eq, label + ' -> %s' % canon(p.ret())[:120], 'the rule cannot read this result as "every field compares equal"', eq.node.lineno)
         elif p.end[0] in ('fall',):
             if not any('<in loop' in t for t in p.guard_texts()):
                 ctx.violation(rule, eq, label + ' -> %s' % p.describe()['end'], '__eq__ does not return True/False on this path', eq.node.lineno)
+
+
+def _walks_slots(repo, pk, v, depth=0):
+    """non-empty text when the expression (or a one-expression method of Packet it calls) iterates
+    __slots__ and the builder puts more than the field names there"""
+    hit = False
+    for n in ast.walk(v):
+        if isinstance(n, ast.comprehension) and isinstance(n.iter, ast.Attribute) and n.iter.attr == '__slots__':
+            hit = True
+        if isinstance(n, ast.Call) and isinstance(n.func, ast.Attribute) and not n.args and depth < 2:
+            m = pk.methods.get(n.func.attr)
+            if m is not None:
+                body = [x for x in m.node.body if not (isinstance(x, ast.Expr) and isinstance(x.value, ast.Constant))]
+                if len(body) == 1 and isinstance(body[0], ast.Return) and body[0].value is not None and _walks_slots(repo, pk, body[0].value, depth + 1):
+                    hit = True
+    if not hit:
+        return ''
+    pb = repo.classes.get('PacketClassBuilder')
+    if pb is None:
+        return ''
+    grows = []
+    for fi in pb.methods.values():
+        for n in ast.walk(fi.node):
+            if isinstance(n, ast.AugAssign) and canon(n.target) == 'self.slots':
+                grows.append(stmt_text(n)[:70])
+            if isinstance(n, ast.Assign) and any(canon(t) == 'self.slots' for t in n.targets) and any(isinstance(x, ast.Call) and call_name(x) == 'sum' for x in ast.walk(n.value)):
+                grows.append(stmt_text(n)[:70])
+    return '; '.join(grows[:2])
 
 
 def names_source(repo, it, slf):
@@ -432,6 +462,40 @@ def check_total_reads(ctx, pk, readers):
     return any_undefaulted
 
 
+PARTIAL_API = ('pack', 'pack_impl', 'unpack', 'unpack_impl', 'as_regular_expression', 'assert_consistency', 'tobytes', 'iterative_unpack')
+
+
+def check_formatting_total(ctx, pk):
+    """Round 5.  repr of a packet formats its values (f-string / % / str): a nested packet is
+    formatted with its own __str__ / __format__ when Packet defines one, otherwise with its repr.
+    Such a method must be as total as repr: pack() and friends raise PacketError for packets that
+    repr has to show (overlapping positions, values that do not fit, half-parsed packets)"""
+    rule = 'R11-total-reads'
+    rp = pk.methods.get('__repr__')
+    uses_str = rp is not None and (any(isinstance(n, ast.FormattedValue) and n.conversion != 114 and any(isinstance(x, ast.Call) and call_name(x) == 'getattr' for x in ast.walk(n.value)) for n in ast.walk(rp.node))
+                                   or any(isinstance(n, ast.Constant) and isinstance(n.value, str) and '%s' in n.value for n in ast.walk(rp.node))
+                                   or any(isinstance(n, ast.Call) and call_name(n) in ('str', 'format') for n in ast.walk(rp.node)))
+    for name in ('__str__', '__format__'):
+        m = pk.methods.get(name)
+        if m is not None and not uses_str:
+            ctx.undecided(rule, m, 'Packet.%s' % name, 'cannot see how __repr__ formats the values (str or repr)', m.node.lineno)
+            continue
+        if m is None:
+            ctx.holds(rule, (pk.file, 'Packet'), 'Packet.%s not defined' % name, 'a nested packet is formatted with its repr', pk.node.lineno)
+            continue
+        calls = [n for n in ast.walk(m.node) if isinstance(n, ast.Call) and isinstance(n.func, ast.Attribute) and n.func.attr in PARTIAL_API]
+        raises = [n for n in ast.walk(m.node) if isinstance(n, ast.Raise)]
+        st = 'Packet.%s: %s' % (name, stmt_text(calls[0])[:80] if calls else stmt_text(m.node)[:80])
+        if calls or raises:
+            ctx.violation(rule, m, st, 'repr of an outer packet formats a nested packet through this method, which %s: repr raises for packets it must be able to show' % ('calls %s (partial: raises PacketError)' % calls[0].func.attr if calls else 'contains a raise'), m.node.lineno, witness=True)
+        else:
+            body_calls = {call_name(n) for n in ast.walk(m.node) if isinstance(n, ast.Call)}
+            if body_calls <= {'repr', 'self.__repr__', 'str', 'format', 'len', 'type', 'getattr', 'hasattr', 'id', 'hex', None} :
+                ctx.holds(rule, m, st, 'built from repr / attribute reads with defaults', m.node.lineno)
+            else:
+                ctx.undecided(rule, m, st, 'cannot see that every call of this method is total', m.node.lineno)
+
+
 def check_all_assign(ctx, rule, reader, st, call, table):
     repo = ctx.repo
     for cname, (ci, strats) in sorted(table.items()):
@@ -486,6 +550,7 @@ def check(ctx):
         if any(isinstance(n, ast.Raise) for n in ast.walk(rp.node)):
             ctx.violation('R11-total-reads', rp, 'Packet.__repr__', 'contains a raise statement', rp.node.lineno)
     check_total_reads(ctx, pk, readers)
+    check_formatting_total(ctx, pk)
     check_init_unpack_agree(ctx)
     # "change one field of one of two equal packets, at any depth, and they differ": the two packets
     # share no mutable value -- what init stores is the keyword or a deep copy of the declared
